@@ -1317,11 +1317,13 @@ class SegmentationImage:
         """
         from rasterio.features import shapes
 
-        polygons = list(shapes(self.data.astype('int32'), connectivity=8))
+        # do not include polygons for background (label = 0); note that
+        # the background may be absent or consist of several regions
+        polygons = [poly for poly in shapes(self.data.astype('int32'),
+                                            connectivity=8) if poly[1] != 0]
         polygons.sort(key=lambda x: x[1])  # sort in label order
 
-        # do not include polygons for background (label = 0)
-        return polygons[1:]
+        return polygons
 
     @lazyproperty
     def polygons(self):
